@@ -1,5 +1,5 @@
 """C20 — room synchronisation locks: exclusive, bounded, never lost."""
-import os
+import os, random
 from . import lib
 from .engine import Cfg
 
@@ -12,9 +12,16 @@ def kv(line):
 class C20(Cfg):
     prop = "C20"
     prop_module = "DiscretModel.Props.C20"
-    lean_targets = ["dmodel_lock"]
-    harness_pkg = "dv-lock"
+    lean_targets = ["dmodel_lock", "dmodel_lockconn"]
+    harness_pkg = ["dv-lock", "dv-lockconn"]
     model_exe = "dmodel_lock"
+
+    def engine_of_corpus(self, name):
+        return ("dv-lockconn", "dmodel_lockconn") if "/conn-" in name else ("dv-lock", "dmodel_lock")
+
+    def engine_of_ops(self, ops):
+        conn = any(o.split(" ")[0] in ("conn", "cready", "cevent", "finish", "close") for o in ops)
+        return ("dv-lockconn", "dmodel_lockconn") if conn else ("dv-lock", "dmodel_lock")
     design_ref = "DESIGN.md §6 C20, App. A.9"
     technique = "Lean 4 invariant/trace proofs over a literal model of the lock actor + exhaustive correspondence run against the real actor"
     level_text = ("Theorems (Lean 4, no bound on peers, rooms, limit or sequence length) about a literal model of the RoomLockService actor: "
@@ -34,8 +41,51 @@ class C20(Cfg):
         "starvation-freedom (every request eventually granted) is not proved; no-missed-wake-up and same-step progress are",
     ]
 
-    def streams(self, tier, seed, work, dv):
+    def gen_conn(self, seed, n, path):
+        """random histories of engine lockconn: 1-3 REAL connections (LocalPeerService::start) and 0-2 outside
+        parties on one lock service; biased towards closing a connection while it synchronises and towards
+        requests for rooms that are being synchronised."""
+        rnd = random.Random(seed * 7919 + 17)
+        with open(path, "w") as f:
+            for cid in range(n):
+                mx = rnd.choice([1, 1, 2])
+                nconn = rnd.choice([1, 2, 2, 3])
+                rooms = list(range(1, rnd.choice([2, 3, 4]) + 1))
+                f.write("case id=%d max=%d\n" % (cid, mx))
+                for i in range(nconn): f.write("conn c=%d\n" % i)
+                syncing = set()       # (conn, room) the generator believes may be in progress (only a bias)
+                closed = set()
+                for _ in range(rnd.randint(3, 14)):
+                    k = rnd.choices(["cready", "cevent", "finish", "close", "req", "unlock", "drop"],
+                                    [2, 5, 6, 2, 2, 1, 1])[0]
+                    c = rnd.randrange(nconn)
+                    if k == "cready":
+                        rs = rnd.sample(rooms, rnd.randint(0, len(rooms)))
+                        f.write("cready c=%d rooms=%s\n" % (c, ",".join(map(str, rs))))
+                        syncing.update((c, r) for r in rs)
+                    elif k == "cevent":
+                        r = rnd.choice(rooms); f.write("cevent c=%d r=%d\n" % (c, r)); syncing.add((c, r))
+                    elif k == "finish":
+                        if syncing and rnd.random() < 0.8: c, r = rnd.choice(sorted(syncing))
+                        else: r = rnd.choice(rooms)
+                        f.write("finish c=%d r=%d\n" % (c, r))
+                    elif k == "close":
+                        f.write("close c=%d\n" % c); closed.add(c)
+                    elif k == "req":
+                        p = rnd.choice([1, 2]); rs = rnd.sample(rooms, rnd.randint(1, len(rooms)))
+                        f.write("req p=%d ch=%d rooms=%s\n" % (p, p, ",".join(map(str, rs))))
+                    elif k == "unlock":
+                        f.write("unlock r=%d\n" % rnd.choice(rooms))
+                    else:
+                        f.write("drop ch=%d\n" % rnd.choice([1, 2]))
+
+    def streams(self, tier, seed, work, dvs):
+        dv = dvs["dv-lock"]
         res = []
+        n = 400 if tier == "quick" else 6000
+        path = os.path.join(work, "conn_random.ops")
+        self.gen_conn(seed, n, path)
+        res.append(("conn random seed=%d n=%d" % (seed, n), path, False, "dv-lockconn", "dmodel_lockconn"))
         plan = [(2, 2, 4, 1), (2, 2, 3, 2), (3, 2, 3, 1)] if tier == "quick" else \
                [(2, 2, 5, 1), (2, 2, 5, 2), (3, 3, 4, 1), (3, 3, 4, 2), (3, 2, 5, 1)]
         for (p, r, l, m) in plan:
@@ -49,14 +99,13 @@ class C20(Cfg):
         res.append(("random seed=%d n=%d" % (seed, n), path, False))
         return res
 
-    def nontrivial(self, ops, outs):
-        return any(o.startswith("grants ") for o in outs)
-
     def oracle(self, ops, outs):
         """Spec-level oracle, independent of the model's algorithm:
         exclusive (no grant of a held room), bounded (held <= max), grants only to live receivers,
         no missed wake-up (spare capacity => no known-pending free room of an always-live peer),
         progress (unlock of a held room wanted by such a peer grants something)."""
+        if self.engine_of_ops(ops)[0] == "dv-lockconn":
+            return self.oracle_conn(ops, outs)
         res = []
         _, h = kv(ops[0])
         mx = int(h.get("max", "0"))
@@ -133,6 +182,49 @@ class C20(Cfg):
                         break
             if res: break
         return res
+
+
+    def oracle_conn(self, ops, outs):
+        """System-level oracle on REAL connections (engine lockconn): a room is never being synchronised by two
+        connections at once, nor by a connection while an outside party holds its lock; at most `max` rooms are
+        held. A raw `unlock r` by an outside party that does not hold r is a misbehaviour of that party: from then
+        on room r is not judged."""
+        res = []
+        _, h = kv(ops[0])
+        mx = int(h.get("max", "0"))
+        pseudo = {}      # room -> ch (outside parties)
+        tainted = set()
+        for op, out in zip(ops[1:], outs[1:]):
+            k, a = kv(op)
+            if " | sync" not in out:
+                if out != "bad-op": res.append(("malformed", out))
+                break
+            g, sy = out.split(" | sync")
+            grants = [tuple(map(int, x.split(":"))) for x in g.split(" ", 1)[1].split(",")] if g.startswith("grants ") else []
+            sync = [tuple(map(int, x.split(":"))) for x in sy.strip().split(",")] if sy.strip() else []
+            if k == "unlock":
+                r = int(a["r"])
+                if r in pseudo: del pseudo[r]
+                else: tainted.add(r)
+            for ch, r in grants:
+                if r in pseudo and r not in tainted:
+                    res.append(("exclusive-system", "room %d granted to outside ch %d while outside ch %d holds it" % (r, ch, pseudo[r])))
+                pseudo[r] = ch
+            by_room = {}
+            for c, r in sync: by_room.setdefault(r, []).append(c)
+            for r, cs in by_room.items():
+                if r in tainted: continue
+                if len(cs) > 1:
+                    res.append(("exclusive-system", "room %d is being synchronised by connections %s at once" % (r, cs)))
+                if r in pseudo:
+                    res.append(("exclusive-system", "room %d is being synchronised by connection %d while its lock is held by outside ch %d" % (r, cs[0], pseudo[r])))
+            if not tainted and len(set(by_room) | set(pseudo)) > mx:
+                res.append(("bounded-system", "%d rooms held, limit %d" % (len(set(by_room) | set(pseudo)), mx)))
+            if res: break
+        return res
+
+    def nontrivial(self, ops, outs):
+        return any(o.startswith("grants ") and not o.startswith("grants |") for o in outs) or any(o.rstrip().endswith("sync") is False and "| sync " in o for o in outs)
 
 
 CHECK = C20()
